@@ -169,3 +169,48 @@ def run_subjects(ctx, pid_tag, exe_by_cfg, jobs, classify=None, use_driver=True,
     else:
         report(j0, r0, failing, True)
     return stats
+
+
+def run_sweep(ctx, tag, harness, cfgs, args, prefixes, flags=("-fno-access-control",), timeout=1200, subject=None):
+    """deterministic sweep harnesses (one run per configuration): the lines starting with one of `prefixes` are compared with the
+    driver's output; `oracle-fail` lines and crashes are property failures with the harness command as the replay"""
+    total = {}
+    for cfg in cfgs:
+        exe = ctx.harness(harness, cfg, flags=list(flags))
+        rc, out, err = run_harness(exe, args, timeout=timeout)
+        lines = out.splitlines()
+        keep = [l for l in lines if l.startswith("header") or any(l.startswith(p) for p in prefixes)]
+        oracle = [l for l in lines if l.startswith("oracle-fail")]
+        summary = {}
+        for l in lines:
+            if l.startswith("summary"):
+                for t in l.split()[1:]:
+                    k, v = t.split("=")
+                    summary[k] = int(v)
+        diff = None
+        if ctx.driver_ok and keep:
+            drc, pred, derr = run_driver("\n".join(keep) + "\n", timeout=600)
+            p = pred.splitlines()
+            for i in range(min(len(keep), len(p))):
+                if keep[i] != p[i]:
+                    diff = (i, keep[i], p[i])
+                    break
+            else:
+                if len(keep) != len(p) or drc != 0:
+                    diff = (min(len(keep), len(p)), "<%d lines>" % len(keep), "<%d lines> %s" % (len(p), derr[-200:]))
+        name = "%s/%s" % (subject or harness, cfg)
+        ncase = len(keep) - 1
+        ctx.add_cov(name, len(keep), ncase, traces=1, sample=keep[len(keep) // 2] if len(keep) > 1 else None,
+                    extra=dict(cases=ncase, **{k: v for k, v in summary.items() if k in ("throw", "joint", "reported", "clean")}))
+        total[cfg] = ncase
+        cmd = "%s %s" % (exe, " ".join(map(str, args)))
+        if oracle or rc != 0:
+            what = "%s [%s] %s" % (harness, cfg, oracle[0] if oracle else "harness died rc=%d %s" % (rc, err[-300:].replace("\n", " ")))
+            ctx.violation("%s-%s-%s" % (tag, harness, cfg), what, dict(subject=harness, cfg=cfg, oracle=oracle[:6], replay_cmd=cmd),
+                          signature=dict(oracle="sweep", subject=harness, cfg=cfg))
+        elif diff:
+            i, a, b = diff
+            ctx.violation("%s-tie-%s-%s" % (tag, harness, cfg),
+                          "%s [%s] implementation and model disagree at line %d: impl `%s` / model `%s`" % (harness, cfg, i, a[:300], b[:300]),
+                          dict(subject=harness, cfg=cfg, diff=diff, replay_cmd=cmd), no_input=True, signature=dict(oracle="tie", cfg=cfg))
+    return total
